@@ -231,7 +231,7 @@ BranchResult(bus, mn, A, T) ==
     ELSE IF T < 0 \/ T > 16777215 THEN [r |-> "unspec", bs |-> <<>>]
     ELSE IF Class(bus, A) \in {"ram", "none"} \/ Class(bus, T) \in {"ram", "none"} THEN [r |-> "fail", bs |-> <<>>]
     ELSE IF Class(bus, A) # "rom" \/ Class(bus, T) # "rom" THEN [r |-> "unspec", bs |-> <<>>]
-    ELSE IF Bank(A) # Bank(T) \/ Off(A) + 2 > 65535 THEN [r |-> "unspec", bs |-> <<>>]      \* cross-bank: not in the statement
+    ELSE IF Bank(A) # Bank(T) THEN [r |-> "unspec", bs |-> <<>>]      \* cross-bank target: not in the statement
     ELSE LET d == T - (A + 2) IN
          IF d < -128 \/ d > 127 THEN [r |-> "fail", bs |-> <<>>]
          ELSE [r |-> "ok", bs |-> <<Opcode(mn, "rel8"), d % 256>>]
@@ -298,7 +298,9 @@ Run(prog, callSite, phaseCheck) ==
              P2 == FoldSymbol(X.nodes, 1, X.scopes, bus, Reset(KeepTrace(P1)))
              P3 == FoldEmit(X.nodes, 1, X.scopes, bus, Reset(P2), phaseCheck)
          IN [outcome |-> IF P3.unspec THEN "unspec" ELSE IF P3.fail THEN "fail"
-                         ELSE IF P3.drift /\ phaseCheck THEN "unspec" ELSE "ok",   \* sizes differed but no symbol moved
+                         \* sizes differed between the passes but no position-derived symbol moved: the emitted
+                         \* bytes (widths by the values at emission, C01) are right, and refusing is allowed too (C02)
+                         ELSE IF P3.drift /\ phaseCheck THEN "either" ELSE "ok",
              img |-> P3.img, labels |-> LabelsOf(X.scopes, P3.defs), why |-> P3.why, nodes |-> X.nodes, scopes |-> X.scopes,
              defs |-> P3.defs, at1 |-> P3.at1, at3 |-> P3.at, offs3 |-> P3.offs, rel3 |-> P3.rel, bus |-> bus]
 
